@@ -149,7 +149,29 @@ def split (sep : Char) : V → Option (List V)
   | .str cs => some ((splitChars sep cs).map V.str)
   | _ => Option.none
 
+/-- does `p` occur in `s` as a run of consecutive code points -/
+def hasSub (p : List Char) : List Char → Bool
+  | [] => p.isEmpty
+  | c :: r => p.isPrefixOf (c :: r) || hasSub p r
+
+/-- `x.startswith(p)` on a `str` (anything else has no such method, or is outside the model) -/
+def startswith (p : List Char) : V → Option Bool
+  | .str cs => some (p.isPrefixOf cs)
+  | _ => Option.none
+
+/-- `p in x` for a `str` `x` -/
+def contains (p : List Char) : V → Option Bool
+  | .str cs => some (hasSub p cs)
+  | _ => Option.none
+
 end V
+
+/-- `[x for x in xs if c(x)]`: the elements whose condition holds, in order; a condition that raises ends
+everything -/
+def filterOpt {α : Type} (xs : List α) (c : α → Option Bool) : Option (List α) :=
+  match xs with
+  | [] => some []
+  | x :: r => (c x).bind fun b => (filterOpt r c).map fun l => if b then x :: l else l
 
 /-- `len(xs)` of a list -/
 def pylen {α : Type} (xs : List α) : V := V.int xs.length
